@@ -197,9 +197,11 @@ def check_codebase(ctx, drv, desc, root, origin, cli, extra_expected=None):
             ctx.corr_break("warncount", case, {"counts": obs["counts"], "closing": obs["closing"]}, r)
         out["model_aggregator"] = r["counts"]
     # ---- (4) the command line: closing lines and cbi.log
-    if cli:
-        rc, so, se = core.run_cli("codebasin", ["-R", "summary", "analysis.toml"], cwd=root)
-        ctx.dist["cli_runs"] += 1
+    # the totals do not depend on how much of the log is echoed to the terminal (-v, -v -v, --debug)
+    for vflags in ([[]] + [ctx.rng.choice([["-v"], ["-v", "-v"], ["--debug"], ["-v", "--debug"]])] if cli else []):
+        rc, so, se = core.run_cli("codebasin", vflags + ["-R", "summary", "analysis.toml"], cwd=root)
+        ctx.dist["cli_runs" + ("" if not vflags else ":verbose")] += 1
+        case = dict(case, cli_flags=vflags) if vflags else case
         log = ""
         lp = os.path.join(str(root), "cbi.log")
         if os.path.exists(lp):
